@@ -21,9 +21,87 @@ def load_known():
     try:
         with open(KNOWN_PATH) as f:
             d = json.load(f)
+            if isinstance(d, dict) and 'fns' in d:
+                return d['fns']
             return d if isinstance(d, dict) else {q: {} for q in d}
     except OSError:
         return None
+
+
+def load_known_adts():
+    try:
+        with open(KNOWN_PATH) as f:
+            d = json.load(f)
+            return d.get('adts') if isinstance(d, dict) else None
+    except OSError:
+        return None
+
+
+def restore_adt_names(raw, known_adts):
+    """Renamed private struct fields and renamed private structs get their audited names back.
+    A field counts as renamed when the struct still has the same number of fields with the same types in the same order
+    and the field at that position is not public; a struct counts as renamed when an audited struct is missing while
+    exactly one unknown struct of the same module has the identical field list.  Returns (raw, [descriptions])."""
+    if not known_adts:
+        return raw, []
+    done = []
+    cur = {a['q']: a for a in raw['adts']}
+    # --- struct renames
+    missing = [q for q in known_adts if q not in cur]
+    unknown = [a for a in raw['adts'] if a['q'] not in known_adts]
+    pairs = []
+    def shape(a):
+        return (a['kind'], tuple(tuple((f[1] if isinstance(f, list) else f['ty']) for f in v['fields']) for v in a['variants']),
+                tuple(tuple((f[0] if isinstance(f, list) else f['name']) for f in v['fields']) for v in a['variants']))
+    for q in missing:
+        mod = q.rsplit('::', 1)[0]
+        cands = [a for a in unknown if a['q'].rsplit('::', 1)[0] == mod and shape(a)[:2] == shape(known_adts[q])[:2]]
+        others = [m2 for m2 in missing if m2 != q and m2.rsplit('::', 1)[0] == mod and shape(known_adts[m2])[:2] == shape(known_adts[q])[:2]]
+        if len(cands) == 1 and not others:
+            pairs.append((cands[0]['q'], q))
+    if pairs:
+        text = json.dumps(raw)
+        for newq, oldq in pairs:
+            for a, b2 in ((newq, oldq), (newq.replace('raqote::', '', 1), oldq.replace('raqote::', '', 1))):
+                ea, eb = json.dumps(a)[1:-1], json.dumps(b2)[1:-1]
+                for end in ('"', '::', ' ', '>', ',', ')', '<', ';', ']', '{', '}'):
+                    text = text.replace(ea + end, eb + end)
+            done.append('struct %s -> %s' % (newq, oldq))
+        raw = json.loads(text)
+        for a in raw['adts']:
+            for newq, oldq in pairs:
+                if a['q'] == oldq:
+                    for v in a['variants']:
+                        if v['name'] == newq.rsplit('::', 1)[1]:
+                            v['name'] = oldq.rsplit('::', 1)[1]
+    # --- field renames
+    ren = {}          # (adt q, field index, new name) -> old name
+    for a in raw['adts']:
+        k = known_adts.get(a['q'])
+        if not k or len(k['variants']) != len(a['variants']):
+            continue
+        for v, kv in zip(a['variants'], k['variants']):
+            if len(v['fields']) != len(kv['fields']) or [f['ty'] for f in v['fields']] != [f[1] for f in kv['fields']]:
+                continue
+            for i, (f, kf) in enumerate(zip(v['fields'], kv['fields'])):
+                if f['name'] != kf[0] and f['name'] not in [x[0] for x in kv['fields']]:
+                    ren[(a['q'], i, f['name'])] = kf[0]
+                    done.append('field %s.%s -> %s' % (a['q'], f['name'], kf[0]))
+                    f['name'] = kf[0]
+    if ren:
+        def walk(x):
+            if isinstance(x, list):
+                for y in x:
+                    walk(y)
+            elif isinstance(x, dict):
+                if x.get('k') == 'field' and 'adt' in x and 'n' in x and (x['adt'], x.get('i'), x['n']) in ren:
+                    x['n'] = ren[(x['adt'], x.get('i'), x['n'])]
+                if x.get('k') == 'agg' and x.get('ak') == 'adt' and isinstance(x.get('fields'), list):
+                    x['fields'] = [ren.get((x.get('adt'), i, n), n) for i, n in enumerate(x['fields'])]
+                for y in x.values():
+                    walk(y)
+        walk(raw['bodies'])
+    return raw, done
 
 
 def restore_renames(raw, known):
@@ -61,10 +139,10 @@ def _is_span(d):
     return isinstance(d, dict) and 'f' in d and 'l2' in d
 
 
-def _remap(x, loff, boff):
-    """deep copy with locals shifted by loff; block references are handled by the caller"""
+def _remap(x, loff, boff, poff=0):
+    """deep copy with locals shifted by loff (and promoted-constant indices by poff); block references are handled by the caller"""
     if isinstance(x, list):
-        return [_remap(v, loff, boff) for v in x]
+        return [_remap(v, loff, boff, poff) for v in x]
     if isinstance(x, dict):
         if _is_span(x):
             return dict(x)
@@ -74,8 +152,10 @@ def _remap(x, loff, boff):
         for k, v in x.items():
             if k == 'l' and (is_place or is_index_proj) and isinstance(v, int):
                 out[k] = v + loff
+            elif k == 'promoted' and isinstance(v, int) and x.get('k') == 'const':
+                out[k] = v + poff
             else:
-                out[k] = _remap(v, loff, boff)
+                out[k] = _remap(v, loff, boff, poff)
         return out
     return x
 
@@ -119,8 +199,6 @@ def inline_new_helpers(raw, known):
     helpers = {}
     for q, b in bodies.items():
         if q in known or b.get('kind') not in ('Fn', 'AssocFn') or b.get('vis') == 'pub':
-            continue
-        if b.get('promoted'):
             continue
         if b.get('impl_trait'):
             continue          # trait methods are reached through dispatch, not by name
@@ -175,6 +253,9 @@ def _inline_at(b, bi, callee):
     t = blk['t']
     loff = len(b['locals'])
     boff = len(b['blocks'])
+    poff = len(b.get('promoted') or [])
+    if callee.get('promoted'):
+        b['promoted'] = list(b.get('promoted') or []) + copy.deepcopy(callee['promoted'])
     for i, l in enumerate(callee['locals']):
         l2 = dict(l)
         b['locals'].append(l2)
@@ -188,7 +269,7 @@ def _inline_at(b, bi, callee):
     dest = t['dest']
     blk['t'] = {'k': 'goto', 't': boff, 'sp': sp}
     for cb in callee['blocks']:
-        nb = {'st': _remap(cb['st'], loff, boff), 't': _remap_term_blocks(_remap(cb['t'], loff, boff), boff)}
+        nb = {'st': _remap(cb['st'], loff, boff, poff), 't': _remap_term_blocks(_remap(cb['t'], loff, boff, poff), boff)}
         if cb.get('cleanup'):
             nb['cleanup'] = True
         if nb['t']['k'] == 'return':
